@@ -212,6 +212,8 @@ reuse_run(Params *p)
 	MUST(nng_dial(a, url.c_str(), NULL, 0));
 	sim_quiesce(10000000);
 	UAio *shared = new UAio();
+	bool  sticky_default = W(0, 2) == 0;
+	long  last_set = -1000;
 	int   n      = (int) W(2, 10);
 	int   queued = 0; // messages sent to b and not yet received
 	for (int i = 0; i < n; i++) {
@@ -219,7 +221,12 @@ reuse_run(Params *p)
 		op_init(&op, "reuse", false);
 		delete op.u; // op_init made a fresh one; this scenario reuses
 		op.u = shared;
-		nng_aio_set_timeout(shared->aio, op.timeout);
+		if (sticky_default && W(0, 3) != 0)
+			op.timeout = NNG_DURATION_DEFAULT;
+		// an aio left at "default" is not touched between its uses: the time-out that counts is the socket's
+		if (!(op.timeout == NNG_DURATION_DEFAULT && last_set == NNG_DURATION_DEFAULT))
+			nng_aio_set_timeout(shared->aio, op.timeout);
+		last_set = op.timeout;
 		long kind = W(0, 3); // 0 sleep, 1 recv (maybe idle), 2 recv with data waiting, 3 send
 		if (kind == 2 && queued == 0) {
 			nng_msg *m = tag_msg(24, 1, 0, (uint32_t) i);
@@ -241,12 +248,24 @@ reuse_run(Params *p)
 			what = "reuse_send";
 		} else {
 			what = "reuse_recv";
-			if (queued == 0)
+			if (queued == 0 && op.timeout != NNG_DURATION_DEFAULT)
 				op_ensure_finite(&op, 30);
+			last_set = op.timeout;
 			tmo = op.timeout >= 0 ? op.timeout : -1;
 		}
+		if (op.timeout == NNG_DURATION_DEFAULT && kind != 0) {
+			// "default" means the socket's NNG_OPT_SENDTIMEO / NNG_OPT_RECVTIMEO as it is when the operation is
+			// submitted: it is changed between the uses of the aio
+			static const int dm[] = { -1, 15, 40, 120 };
+			int              d    = dm[W(0, 3)];
+			if (d < 0 && kind != 3 && queued == 0)
+				d = 25; // nothing will arrive: the receive needs an end
+			MUST(nng_socket_set_ms(kind == 3 ? a : b, kind == 3 ? NNG_OPT_SENDTIMEO : NNG_OPT_RECVTIMEO, d));
+			tmo = d;
+			sim_probe("c02_reuse_default_timeout");
+		}
 		op.what = what;
-		sim_event("op %d: %s ms=%d aio timeout %d disturb %s queued=%d", i, what, ms, (int) op.timeout,
+		sim_event("op %d: %s ms=%d aio timeout %d (effective %ld) disturb %s queued=%d", i, what, ms, (int) op.timeout, tmo,
 		    dname[op.action], queued);
 		int tid = sim_spawn("dist", disturber, &op, 0);
 		if (op.go)
@@ -291,6 +310,7 @@ reuse_run(Params *p)
 				sim_violation("C02", "callback_after_stop", "%s: callback ran after nng_aio_stop returned", what);
 			delete shared;
 			shared = new UAio();
+			last_set = -1000;
 		}
 		sim_stat("nontrivial", 1);
 	}
